@@ -46,6 +46,8 @@ def obligations(tier):
         Ob("C03.ad", "X", "Factor: x*factor; Metadata: (x, attrs); Flag: x != 0; StripNullBytes", ["ceos_alos2.datatypes:Factor._decode", "ceos_alos2.datatypes:Metadata._decode",
            "ceos_alos2.sar_image.enums:Flag._decode", "ceos_alos2.datatypes:StripNullBytes._decode"], bounds="forall ints x, factor; flag < 2**32",
            harness="harness/h_adapters.py", func="simple_adapters_ok", timeout=to),
+        Ob("C03.ydms", "X", "per-line acquisition time: (year, day_of_year, ms) decodes to 1 January of the year + (day-1) days + ms, for every stamp incl. day 366 of leap years",
+           ["ceos_alos2.datatypes:DatetimeYdms._decode"], bounds="forall year 2014..2049, doy 1..366, ms 0..86399999", harness="harness/h_time.py", func="ydms_ok", timeout=to),
         Ob("C03.ydus.live", "X", "the microsecond adapter object inside the live signal-data struct: date of THIS line's ms stamp + us, for consecutive lines/files with different dates "
            "(no state kept between calls)", ["ceos_alos2.datatypes:DatetimeYdus._decode", "ceos_alos2.sar_image.signal_data:signal_data_record"],
            bounds="forall us1, us2 < 86400000000; " + ("7 consecutive pairs" if tier == "quick" else "all 49 ordered pairs") + " of 7 reference dates",
